@@ -42,6 +42,39 @@ impl Which {
     }
 }
 
+thread_local! {
+    /// One long-lived move generator per worker thread: the generator the subject itself would
+    /// keep using. A shared one would make any state hidden inside it (a cache) depend on thread
+    /// timing; per thread, what it has seen before is exactly this thread's history.
+    static TL_MG: MoveGenerator = MoveGenerator::new();
+    /// The last boards this thread's generator was asked about (oldest first)
+    static TL_HIST: std::cell::RefCell<std::collections::VecDeque<Board>> = std::cell::RefCell::new(std::collections::VecDeque::new());
+}
+
+const HIST_WINDOW: usize = 12;
+
+fn tl_mg<R>(f: impl FnOnce(&MoveGenerator) -> R) -> R {
+    TL_MG.with(|mg| f(mg))
+}
+
+fn hist_push(b: &Board) {
+    TL_HIST.with(|h| {
+        let mut h = h.borrow_mut();
+        if h.len() == HIST_WINDOW {
+            h.pop_front();
+        }
+        h.push_back(*b);
+    });
+}
+
+fn hist_fens(current: &Board) -> String {
+    TL_HIST.with(|h| {
+        let mut v: Vec<String> = h.borrow().iter().map(eng::fen_of).collect();
+        v.push(eng::fen_of(current));
+        v.join("|")
+    })
+}
+
 pub struct PosCheck<'a> {
     pub mg: &'a MoveGenerator,
     pub rep: &'a Report,
@@ -105,8 +138,31 @@ impl<'a> PosCheck<'a> {
         );
     }
 
+    /// The long-lived generator disagrees with the rules but a fresh one agrees: the answer
+    /// depends on what the generator was asked before. Reported with the window of earlier
+    /// questions; the replay asks a fresh generator the same questions in the same order.
+    fn violate_history(&self, b: &Board, fen: &str, what: &str, text: String) {
+        let cmd = match self.which {
+            Which::C17 => "c17-hist",
+            Which::C02 => "c02-hist",
+            _ => "c01-hist",
+        };
+        self.rep.violation(
+            format!("{} fen={} {} depends-on-earlier-calls", self.which.id(), fen, what),
+            format!("{} -- but a fresh MoveGenerator answers correctly for this position: the generator's answer depends on the positions it was asked about before (the last {} are in the replay)", text, HIST_WINDOW),
+            vec![cmd.to_string(), "--fens".into(), hist_fens(b)],
+            J::Null,
+        );
+    }
+
     /// Checks one state; returns the successors on which subject and model agree.
     pub fn check_state(&self, b: &Board) -> Vec<(Board, u64)> {
+        let r = self.check_state_inner(b);
+        hist_push(b);
+        r
+    }
+
+    fn check_state_inner(&self, b: &Board) -> Vec<(Board, u64)> {
         let p = match eng::pos_of(b) {
             Ok(p) => p,
             Err(_) if self.which == Which::Nav => return vec![],
@@ -168,7 +224,7 @@ impl<'a> PosCheck<'a> {
         }
 
         // ---- subject: generate moves
-        let em = match guard(|| self.mg.generate_moves(b)) {
+        let em = match guard(|| tl_mg(|mg| mg.generate_moves(b))) {
             Ok(m) => m,
             Err(_) if self.which == Which::Nav => return vec![],
             Err(e) => {
@@ -186,7 +242,15 @@ impl<'a> PosCheck<'a> {
             dedup.dedup();
             let missing: Vec<Mv> = lsorted.iter().filter(|m| !dedup.contains(m)).cloned().collect();
             let extra: Vec<Mv> = dedup.iter().filter(|m| !lsorted.contains(m)).cloned().collect();
-            if dedup.len() != emv.len() || !missing.is_empty() || !extra.is_empty() {
+            let fresh_ok = (dedup.len() != emv.len() || !missing.is_empty() || !extra.is_empty())
+                && guard(|| {
+                    let mut f: Vec<Mv> = MoveGenerator::new().generate_moves(b).iter().map(eng::mv_of).collect();
+                    f.sort();
+                    f
+                }) == Ok(lsorted.clone());
+            if fresh_ok {
+                self.violate_history(b, &fen, "moveset", format!("generated move set differs from the legal moves in {:?}: missing [{}] illegal [{}] duplicates {}", fen, eng::moves_text(&missing), eng::moves_text(&extra), emv.len() - dedup.len()));
+            } else if dedup.len() != emv.len() || !missing.is_empty() || !extra.is_empty() {
                 self.violate(
                     &fen,
                     "moveset",
@@ -202,9 +266,11 @@ impl<'a> PosCheck<'a> {
                         .set("model_moves", eng::moves_text(&lsorted)),
                 );
             }
-            match guard(|| self.mg.is_in_check(b)) {
+            match guard(|| tl_mg(|mg| mg.is_in_check(b))) {
                 Ok(flag) => {
-                    if flag != in_check {
+                    if flag != in_check && guard(|| MoveGenerator::new().is_in_check(b)) == Ok(in_check) {
+                        self.violate_history(b, &fen, "checkflag", format!("is_in_check = {} but the rules say {} in {:?}", flag, in_check, fen));
+                    } else if flag != in_check {
                         self.violate(
                             &fen,
                             "checkflag",
@@ -284,7 +350,7 @@ impl<'a> PosCheck<'a> {
 
         // ---- subject: quiescence move set
         if self.which == Which::C17 && !in_check {
-            match guard(|| self.mg.generate_quiescence_moves(b)) {
+            match guard(|| tl_mg(|mg| mg.generate_quiescence_moves(b))) {
                 Ok(q) => {
                     let mut qv: Vec<Mv> = q.iter().map(eng::mv_of).collect();
                     qv.sort();
@@ -292,7 +358,15 @@ impl<'a> PosCheck<'a> {
                     tv.sort();
                     let mut qd = qv.clone();
                     qd.dedup();
-                    if qd != tv || qd.len() != qv.len() {
+                    let fresh_ok = (qd != tv || qd.len() != qv.len())
+                        && guard(|| {
+                            let mut f: Vec<Mv> = MoveGenerator::new().generate_quiescence_moves(b).iter().map(eng::mv_of).collect();
+                            f.sort();
+                            f
+                        }) == Ok(tv.clone());
+                    if fresh_ok {
+                        self.violate_history(b, &fen, "qmoves", format!("quiescence move set in {:?} (not in check) is [{}], the tactical moves are [{}]", fen, eng::moves_text(&qv), eng::moves_text(&tv)));
+                    } else if qd != tv || qd.len() != qv.len() {
                         let missing: Vec<Mv> = tv.iter().filter(|m| !qd.contains(m)).cloned().collect();
                         let extra: Vec<Mv> = qd.iter().filter(|m| !tv.contains(m)).cloned().collect();
                         self.violate(
@@ -786,6 +860,35 @@ pub fn replay_exam_one(start_fen: &str, node_fen: &str, cap: u64) -> i32 {
     }
     println!("REPLAY-OK C17 examined moves from {}", start_fen);
     0
+}
+
+/// Replay of a history-dependence case: a fresh process (fresh thread-local generator) is asked
+/// about the recorded positions in the recorded order through the same check.
+pub fn replay_hist(which: Which, fens: &str) -> i32 {
+    let rep = Report::new(which.id(), "quick", 0);
+    let mg = MoveGenerator::new();
+    let pc = PosCheck::new(&mg, &rep, which);
+    for f in fens.split('|') {
+        match eng::board_of_fen(f) {
+            Ok(b) => {
+                pc.check_state(&b);
+            }
+            Err(e) => {
+                println!("REPLAY-ERROR bad fen {:?}: {}", f, e);
+                return 2;
+            }
+        }
+    }
+    let v = rep.violations.lock().unwrap();
+    for x in v.iter() {
+        println!("REPLAY-VIOLATION {} :: {}", x.sig, x.text.split(" -- ").next().unwrap_or(""));
+    }
+    if v.is_empty() {
+        println!("REPLAY-OK {} history of {} positions", which.id(), fens.split('|').count());
+        0
+    } else {
+        1
+    }
 }
 
 /// Replay of one traced quiescence node: runs the real quiescence search from the FEN and
